@@ -114,7 +114,7 @@ PROPERTIES = {
     },
     "C16": {
         "rule": "rapidcheck: populations of 1-8 cells of the five classes, 4-700 triangles, coordinate scales 1e-9..1e6 with offsets up to "
-                "1e4 sizes, exact and negative zeros, type ids 0..12; cells optionally pre-processed by 1-8 real split/collapse operations "
+                "1e4 sizes, exact and negative zeros and the tiny values of either sign that rounding leaves on a coordinate plane (1e-17 .. 1e-200, subnormal 1e-310: three-digit exponents in the %.4e rendering), type ids 0..12; cells optionally pre-processed by 1-8 real split/collapse operations "
                 "so that they hold unused slots; three writer entry points (write_cell_data_file(cells), write(cell+face files), "
                 "vector<mesh> overload). Non-trivial = >= 2 cell classes AND at least one cell the writer had to compact; distinct = hash of the case.",
         "min_nontrivial": 100,
